@@ -84,15 +84,31 @@ pub fn undeclared_values(declared: &[u64], len: usize, upcast: bool) -> Vec<u64>
     let max = max_of(len);
     let is_decl = |v: u64| declared.contains(&v);
     let mut plain: Vec<u64> = Vec::new();
-    for d in declared.iter().take(6) {
-        for c in [d.wrapping_add(1) & max, d.wrapping_sub(1) & max] {
-            if !is_decl(c) && !plain.contains(&c) {
-                plain.push(c);
-            }
+    let mut push = |c: u64, plain: &mut Vec<u64>| {
+        if c <= max && !is_decl(c) && !plain.contains(&c) {
+            plain.push(c);
+        }
+    };
+    // the value just above the largest declared one comes first (where a newer version of the enum would continue), then
+    // the largest value of the width, then the one below the smallest, then every gap next to a declared value
+    if let Some(hi) = declared.iter().copied().filter(|d| *d <= max).max() {
+        push(hi.wrapping_add(1), &mut plain);
+    }
+    push(max, &mut plain);
+    if let Some(lo) = declared.iter().copied().min() {
+        if lo > 0 {
+            push(lo - 1, &mut plain);
         }
     }
-    if !is_decl(max) && !plain.contains(&max) {
-        plain.insert(plain.len().min(1), max);
+    let mut sorted: Vec<u64> = declared.to_vec();
+    sorted.sort();
+    for d in sorted.iter() {
+        for c in [d.wrapping_add(1) & max, d.wrapping_sub(1) & max] {
+            push(c, &mut plain);
+        }
+        if plain.len() >= 24 {
+            break;
+        }
     }
     let mut alias: Vec<u64> = Vec::new();
     if upcast {
@@ -203,6 +219,22 @@ pub fn field_mutations(f: &Frame) -> Vec<Mutation> {
                         }
                     }
                     out.push(m);
+                    // the reader's length limit (256 bytes) from both sides, with and without a terminator: the whole field is replaced
+                    for (what, n, nul) in [("255 bytes + NUL", 255usize, true), ("256 bytes + NUL", 256, true), ("257 bytes + NUL", 257, true), ("256 bytes, no NUL", 256, false)] {
+                        let mut m = Mutation::base(f, "T7", format!("field#{} {} replaced by {}", fi, fld.path, what));
+                        let mut rep = vec![b'y'; n];
+                        if nul {
+                            rep.push(0);
+                        }
+                        let delta = rep.len() as i64 - fld.len as i64;
+                        m.plain.splice(fld.off..fld.off + fld.len, rep);
+                        if let Some(cs) = m.comp_start {
+                            if fld.off < cs {
+                                m.comp_start = Some((cs as i64 + delta) as usize);
+                            }
+                        }
+                        out.push(m);
+                    }
                 }
             }
             FKind::Str => {
